@@ -3,7 +3,7 @@
    Coq compares: Isolation/Cases.v).  The engine object's fields that survive a request are an explicit
    record `transient`; the theorems quantify over ALL values of that record, all stores, identities,
    requests and (by induction) all prefix histories. *)
-From PK Require Import Isolation.Model Isolation.Proofs.
+From PK Require Import Isolation.Model Isolation.Proofs Isolation.Session.
 From Coq Require Import ZArith List Bool String.
 Import ListNotations.
 Open Scope Z_scope.
@@ -50,7 +50,7 @@ Print Assumptions batch_view_from_request.
 Example leftovers :
   snd (snd (process_request init_xstore fresh_transient 2
      {| q_ver := 20; q_stamp := StampAbsent; q_async := None; q_undo := false; q_cont := false; q_ids_ok := false;
-        q_items := [{| x_item := {| i_op := OCreate; i_gate := true |}; x_present := [[]] |}] |}))
+        q_items := [{| x_item := {| i_op := OCreate 0; i_gate := true |}; x_present := [[]] |}] |}))
   = {| t_ph := Some 1; t_ver := 20; t_apv := 20; t_ident := 2; t_async := false |}.
 Proof. exact Proofs.leftovers. Qed.
 
@@ -61,3 +61,28 @@ Theorem old_engine_not_isolated :
     fst (process_request_gen false xs t1 who q) <> fst (process_request_gen false xs t2 who q).
 Proof. exact Proofs.old_engine_not_isolated. Qed.
 Print Assumptions old_engine_not_isolated.
+
+(* ---------- connection level: the session object ---------- *)
+
+(* handling a message never changes the session object's fields (all four are configuration) *)
+Theorem session_unchanged : forall ss s who f, snd (fst (handle_message ss s who f)) = ss.
+Proof. exact Session.session_unchanged. Qed.
+Print Assumptions session_unchanged.
+
+(* after ANY messages on a connection the probe is answered as over a new connection to a fresh engine object on
+   the same store: in particular a Maximum Response Size stated by an earlier message is gone *)
+Theorem probe_equals_fresh_connection : forall prefix now s0 who probe,
+  let r := run_connection (new_sess now) s0 who prefix in
+  let ss := snd (fst r) in let s := snd r in
+  fst (fst (handle_message ss s who probe)) = fst (fst (handle_message (new_sess now) (fst s, fresh_transient) who probe)) /\
+  fst (snd (handle_message ss s who probe)) = fst (snd (handle_message (new_sess now) (fst s, fresh_transient) who probe)).
+Proof. exact Session.probe_equals_fresh_connection. Qed.
+Print Assumptions probe_equals_fresh_connection.
+
+(* false for a session that stores the limit of an earlier message in the session object *)
+Theorem sticky_session_not_isolated :
+  exists ss1 ss2 s who f,
+    ss2 = snd (fst (handle_message_sticky ss1 s who (FReq locate_q (Some 100) 80))) /\
+    fst (fst (handle_message_sticky ss1 s who f)) <> fst (fst (handle_message_sticky ss2 s who f)).
+Proof. exact Session.sticky_session_not_isolated. Qed.
+Print Assumptions sticky_session_not_isolated.
